@@ -58,7 +58,30 @@ def generate(seed, tier, index):
         per = [L.gen_conn_intents(seed, c, max(2, total // nconn), rng.choice(['churn', 'longchurn', 'objects', 'mixed']))
                for c in range(nconn)]
     intents = L.interleave(rng, per)
-    cfg = {'kind': 'session', 'nconn': nconn, 'sides': [rng.choice(['client', 'server']) for _ in range(nconn)],
+    clash = False
+    if index % 5 == 3:
+        # ill-formed on purpose: messages naming the id of a live object under another interface; the tool shows them as
+        # `unresolved type@id?`, and a label `X: <id>a` typed back must not select them
+        r3 = random.Random('%d/clash' % seed)
+        out = []
+        for k, it in enumerate(intents):
+            out.append(it)
+            if it[0] == 'act' and k > len(intents) // 4 and r3.random() < 0.12:
+                out.append(['act', it[1], 'orphan_clash', r3.randrange(1 << 30), r3.randrange(1 << 30), r3.randrange(1 << 30)])
+                clash = True
+        intents = out
+    illformed = False
+    if index % 10 == 9:
+        # ill-formed on purpose: a second get_registry naming a registry id that is still alive (reconnect / glued logs without
+        # connection tags).  Only the clauses that hold for every history are judged: no two distinct objects of a connection
+        # share a displayed label, no two connections share a name
+        r4 = random.Random('%d/dupreg' % seed)
+        acts = [k for k, it in enumerate(intents) if it[0] == 'act']
+        for k in sorted(r4.sample(acts, min(len(acts), r4.randint(1, 2))), reverse=True):
+            if k > 2:
+                intents.insert(k, ['act', intents[k][1], 'dup_registry', r4.randrange(1 << 30), r4.randrange(1 << 30), r4.randrange(1 << 30)])
+                illformed = True
+    cfg = {'kind': 'session', 'nconn': nconn, 'clash': clash, 'illformed': illformed, 'sides': [rng.choice(['client', 'server']) for _ in range(nconn)],
            'dialect': L.pick_dialect(rng, nconn), 'epoch_us': 0, 'suppress': True, 'rig': 'component',
            'harvest_seed': rng.randrange(1 << 30), 'max_queries': 40 if tier == 'quick' else 120}
     return {'prop': ID, 'seed': seed, 'config': cfg, 'intents': intents}
@@ -149,8 +172,23 @@ def execute(sc):
     else:
         st, res, tr, metas = S.run(sc)
     names = oracles.conn_names(st)
+    queries = []
     if res.exception is not None:
         V.add('C14/label-matcher', 'exception:' + type(res.exception).__name__, res.traceback[-1500:])
+    elif cfg.get('illformed'):
+        V.bump('illformed_sessions_uniqueness_only')
+        for nm, objs in tr.objects.items():
+            by_label = {}
+            for o in objs.values():
+                if o.generation is None:
+                    continue
+                by_label.setdefault(o.id_str(), []).append(o)
+            for lab, lst in by_label.items():
+                if len(lst) > 1:
+                    V.add('C14/duplicate-label', 'objects', 'connection %s: %d distinct objects display as %s' % (nm, len(lst), lab))
+        cnames = [c.name() for c in tr.conns]
+        if len(set(cnames)) != len(cnames):
+            V.add('C14/duplicate-name', 'names', 'connection names %r' % cnames)
     else:
         items = L.out_items(res.rec)
         # harvest labels from the tool's own output
@@ -193,6 +231,11 @@ def execute(sc):
         nlong = sum(1 for l in labels if len(l[2]) >= 3)
         if nlong > 6:
             labels = labels[:6] + labels[nlong:]
+        clash_ids = {(names.get(it.conn), it.target.id) for _, it in st.lines
+                     if isinstance(it, W.Closure) and getattr(it.target, 'orphan', False)}
+        if clash_ids:
+            labels.sort(key=lambda l: 0 if (l[0], l[1]) in clash_ids else 1)     # labels of ids that also occur unresolved first
+            V.bump('probe_unresolvable_message_on_a_labelled_id')
         queries = []
         for (cn, id_, gen) in labels[:cfg['max_queries']]:
             text = 'list %s: %d%s' % (cn, id_, gen)
